@@ -326,8 +326,8 @@ def rewrite(m, src, util_src, registries, counts):
             s2 = s.replace(pattern, repl)
         counts[rule] += k
         return s2
-    src = cnt('R3', 'cbor::ser::into_writer(', 'crate::vprelude::into_writer_vec(', src)
-    src = cnt('R3', 'cbor::de::from_reader(', 'crate::vprelude::from_reader_slice(', src)
+    src = cnt('R3', r'(?:crate::)?cbor::ser::into_writer\(', 'crate::vprelude::into_writer_vec(', src, regex=True)
+    src = cnt('R3', r'(?:crate::)?cbor::de::from_reader\(', 'crate::vprelude::from_reader_slice(', src, regex=True)
     src = cnt('R4', "text.trim() != text", "crate::vprelude::str_ne_string(text.trim(), text)", src)
     src = cnt('R4', r"(\w+)\.matches\('/'\)\.count\(\)", r"crate::vprelude::str_count_matches(&\1, '/')", src, regex=True)
 
@@ -436,9 +436,23 @@ def token_map(btoks, btext, ctoks, ctext):
             ci = [y for _, g in cl[j1:j2] for y in g]
             sm2 = difflib.SequenceMatcher(None, [btoks[x][2] for x in bi], [ctoks[y][2] for y in ci], autojunk=False)
             for a, b, size in sm2.get_matching_blocks():
+                # inside a changed hunk only runs of >= 3 tokens count as "the same code" (single brackets, dots and
+                # semicolons match anywhere and would attach ghost text to unrelated code)
+                if size < 3 and not (size == len(bi) == len(ci)):
+                    continue
                 for d in range(size):
                     M[bi[a + d]] = ci[b + d]
     return M
+
+
+def lost_functions(b_text, btoks, lost):
+    """names of the functions (in the sidecar's base text) that contained a lost insertion"""
+    names = []
+    for k, _ in lost:
+        off = btoks[min(k, len(btoks) - 1)][0] if btoks else 0
+        fns = list(re.finditer(r'\bfn\s+([A-Za-z0-9_]+)', b_text[:off]))
+        names.append(fns[-1].group(1) if fns else '?')
+    return sorted(set(names))
 
 
 def merge(a_text, c_text, modname):
@@ -455,6 +469,7 @@ def merge(a_text, c_text, modname):
     import bisect
     placed = {}   # c token index (insert before) -> [(offset within the trivia, text)]
     displaced = 0
+    lost = []
 
     def trivia(toks, text, j):
         lo = toks[j - 1][1] if j > 0 else 0
@@ -464,17 +479,25 @@ def merge(a_text, c_text, modname):
         k = bisect.bisect_right(ends, off)       # number of B tokens that end at or before off
         rel = off - (ends[k - 1] if k > 0 else 0)
         j = None
-        if k > 0 and M[k - 1] is not None:
+        prev_ok = k > 0 and M[k - 1] is not None
+        next_ok = k < len(btoks) and M[k] is not None
+        # text that only makes sense glued to its neighbour: `(r:` / `)` around a return type, `it:` after `in`,
+        # `: T` on a closure parameter, a contract clause in front of the body brace
+        glued_prev = text.strip().startswith((')', ':', ',')) or text.strip() in ('it:', 'it0:', 'it2:', 'it3:')
+        glued_next = text.strip().endswith(('(r:', '{', 'let r =', 'match')) or text.lstrip().startswith(('invariant', 'requires', 'ensures', 'decreases'))
+        if (not prev_ok and not next_ok) or (glued_prev and not prev_ok) or (glued_next and not next_ok):
+            lost.append((k, text.strip()[:60]))
+            continue
+        if prev_ok and next_ok and M[k] != M[k - 1] + 1:
+            # code was inserted between the two anchors: keep statement-level ghost text next to the code that FOLLOWS it
+            # when it ends a line in the sidecar, else next to the code that precedes it
+            j = M[k - 1] + 1 if not text.endswith('\n') else M[k]
+            displaced += 1
+        elif prev_ok:
             j = M[k - 1] + 1
-        elif k < len(btoks) and M[k] is not None:
+        else:
             j = M[k]
             displaced += 1
-        else:
-            displaced += 1
-            p = k - 1
-            while p >= 0 and M[p] is None:
-                p -= 1
-            j = (M[p] + 1) if p >= 0 else 0
         # keep the position inside the whitespace/comments only when that text is unchanged
         if trivia(btoks, b_text, k) != trivia(ctoks, c_text, j):
             rel = 0
@@ -493,7 +516,8 @@ def merge(a_text, c_text, modname):
                     t = t + '\n'
                 out.append(GOPEN + t + GCLOSE)
     out.append(c_text[pos:])
-    return ''.join(out), {'insertions': len(ins), 'displaced': displaced, 'base_matches_current': same}
+    return ''.join(out), {'insertions': len(ins), 'displaced': displaced, 'base_matches_current': same, 'lost': lost,
+                          'lost_in': lost_functions(b_text, btoks, lost)}
 
 
 def strip_generated(text):
